@@ -28,8 +28,8 @@ Mags == {M0, M1, M2, M3, Mh, Mb, Ms}
 
 R(m) == Real(FALSE, m)
 Cplx(rn, rm, in, im) == Num(Part(rn, rm), Part(in, im))
-Q0 == Fixed(0)   Q1 == Fixed(1)   Qq == QVar("q")   Qp == QPh(1)
-MR == MRef("ro", 0)   MT == MRef("Theta", 1)
+Q0 == Fixed(0)   Q1 == Fixed(1)   Qq == QVar("q")   Qp == QPh(1)   Q17 == Fixed(17)
+MR == MRef("ro", 0)   MT == MRef("Theta", 1)   M12 == MRef("ro", 12)    \* indices / qubits >= 10: a change of radix shows
 X == EVar("x")
 
 \* ---- expressions
@@ -56,11 +56,11 @@ AwkwardApi ==
   { Real(TRUE, M1), Imag(TRUE, M2), Cplx(FALSE, M1, FALSE, M2), Cplx(TRUE, M1, TRUE, M2), Pos(X), Pos(Neg(X)),
     Neg(Real(TRUE, M1)), Neg(Cplx(FALSE, M1, FALSE, M2)), Inf("*", Cplx(FALSE, M1, FALSE, M2), X),
     Inf("^", Pi, Cplx(FALSE, M1, TRUE, M2)), Inf("-", Real(TRUE, M2), Real(TRUE, M1)), Fn("sin", R(M1)),
-    Inf("+", Fn("sin", R(M1)), R(M2)), Neg(Pos(X)) }
+    Inf("+", Fn("sin", R(M1)), R(M2)), Neg(Pos(X)), Pos(Fn("sin", R(M1))), Pos(R(M2)) }
 
 Api == Family = "C04"
 \* expressions used in every expression position
-ES == IF Api THEN AwkwardApi \cup {R(M2), Pi, X, Addr(MT)} ELSE AwkwardNormal \cup {R(M2), R(Mh), Pi, X, Addr(MT)}
+ES == IF Api THEN AwkwardApi \cup {R(M2), Pi, X, Addr(MT), Addr(M12)} ELSE AwkwardNormal \cup {R(M2), R(Mh), Pi, X, Addr(MT), Addr(M12)}
 \* expressions used in the one exhaustive position (gate parameter)
 SmallNormal == { R(M2), Imag(FALSE, M2), Pi, X }
 SmallApi    == { R(M2), Real(TRUE, M1), Cplx(FALSE, M1, TRUE, M2), X }
@@ -69,12 +69,12 @@ ParamTrees == Trees(IF SmallLeaves THEN (IF Api THEN SmallApi ELSE SmallNormal)
 E1 == R(M2)   E2 == Inf("/", Pi, R(M2))
 
 \* ---- operands of instructions
-Frames == { Frame(S_rf, <<Q0>>), Frame(S_q, <<Q0, Qq>>) }
+Frames == { Frame(S_rf, <<Q0>>), Frame(S_q, <<Q17, Qq>>) }
 F0 == Frame(S_rf, <<Q0>>)
 Wfs(e) == { WfInv("flat", None, <<>>), WfInv("flat", None, <<KV("duration", e), KV("iq", E1)>>),
             WfInv("my", Some("wf"), <<KV("a", e)>>) }
 W0 == WfInv("flat", None, <<KV("duration", E1)>>)
-RealOperands == { OInt(FALSE, "1"), OInt(TRUE, "1"), OReal(FALSE, "2.0"), OReal(TRUE, "0.5"), OReal(FALSE, "1e20"), OMRef(MT) }
+RealOperands == { OInt(FALSE, "1"), OInt(TRUE, "10"), OReal(FALSE, "2.0"), OReal(TRUE, "0.5"), OReal(FALSE, "1e20"), OMRef(MT), OMRef(M12) }
 IntOperands  == { OInt(FALSE, "1"), OInt(TRUE, "3"), OMRef(MT) }
 Targets == { TFixed("end"), TFixed("loop-1") }
 GX == Gate("X", <<>>, <<Q0>>, <<>>)
@@ -108,17 +108,17 @@ DefWaveforms == { DefWaveform("wf", ext, ps, m) : ext \in {None, Some("sub")}, p
 DefFrames == { DefFrame(f, as) : f \in Frames,
                  as \in { <<AttrStr("DIRECTION", <<"t", "x">>)>> } \cup
                         { <<AttrExpr("INITIAL-FREQUENCY", e), AttrStr("HARDWARE-OBJECT", S_q)>> : e \in ES } }
-Declares == { Declare("ro", "BIT", 1, None), Declare("Theta", "REAL", 3, None), Declare("o", "OCTET", 2, None),
+Declares == { Declare("ro", "BIT", 1, None), Declare("Theta", "REAL", 16, None), Declare("o", "OCTET", 2, None),
               Declare("b", "INTEGER", 2, Some(Sharing("ro", <<>>))),
-              Declare("b", "REAL", 1, Some(Sharing("Theta", <<Offset(2, "BIT"), Offset(1, "REAL")>>))) }
-Measures == { Measure(n, q, tg) : n \in {None, Some("fast")}, q \in {Q0, Qq}, tg \in {None, Some(MR), Some(MT)} }
+              Declare("b", "REAL", 1, Some(Sharing("Theta", <<Offset(12, "BIT"), Offset(1, "REAL")>>))) }
+Measures == { Measure(n, q, tg) : n \in {None, Some("fast")}, q \in {Q0, Qq, Q17}, tg \in {None, Some(MR), Some(M12)} }
 Resets == { Reset(None), Reset(Some(Q0)), Reset(Some(Qq)) }
 \* C02 is about texts: the text of an ambiguous DELAY is a fine input, but the program it parses to is not the
 \* value it was printed from, so it is left to the C04 family (and to the driver's corpus)
 AllDelays == { Delay(e, fs, qs) : e \in ES, fs \in {<<>>, <<S_rf>>, <<S_q, S_rf>>}, qs \in {<<Q0>>, <<Q0, Q1>>, <<Qq>>} }
              \cup (IF Api THEN { Delay(e, <<>>, <<>>) : e \in ES } ELSE {})
 Delays == IF Api THEN AllDelays ELSE { d \in AllDelays : ~DelayAmbiguous(d) }
-Fences == { Fence(<<>>), Fence(<<Q0>>), Fence(<<Q0, Qq>>) }
+Fences == { Fence(<<>>), Fence(<<Q0>>), Fence(<<Q0, Qq>>), Fence(<<Q17, Q1>>) }
 Pulses == { Pulse(b, f, w) : b \in BOOLEAN, f \in Frames, w \in Wfs(E2) } \cup UNION { { Pulse(TRUE, F0, w) : w \in Wfs(e) } : e \in ES }
 Captures == { Capture(b, f, w, m) : b \in BOOLEAN, f \in Frames, w \in Wfs(E2), m \in {MR} }
 RawCaptures == { RawCapture(b, F0, e, m) : b \in BOOLEAN, e \in ES, m \in {MR, MT} }
@@ -132,7 +132,7 @@ Classical == { Arith(o, MR, s) : o \in ArithOps, s \in RealOperands } \cup { Log
              \cup { Store("Theta", MR, s) : s \in RealOperands }
 Control == { Label(x) : x \in Targets } \cup { Jump(x) : x \in Targets }
            \cup { JumpWhen(x, MR) : x \in Targets } \cup { JumpUnless(x, MT) : x \in Targets } \cup { Halt, Nop, Wait }
-Pragmas == { Pragma("foo", as, d) : as \in {<<>>, <<PArgId("a-b"), PArgInt("1")>>, <<PArgInt("2")>>}, d \in {None, Some(S_sp), Some(S_q)} }
+Pragmas == { Pragma("foo", as, d) : as \in {<<>>, <<PArgId("a-b"), PArgInt("1")>>, <<PArgInt("20")>>}, d \in {None, Some(S_sp), Some(S_q)} }
            \cup { Pragma("EXTERN", <<PArgId("f")>>, Some(S_ext)), Include(S_rf), Include(S_q) }
 CallImms == { R(M2), R(Mh), Imag(FALSE, M2), R(Mb) } \cup (IF Api THEN { Real(TRUE, M1), Cplx(FALSE, M1, FALSE, M2), Imag(TRUE, M2), Cplx(TRUE, M1, TRUE, M2) } ELSE {})
 Calls == { Call("f", <<>>), Call("f", <<CArgId("ro")>>), Call("f", <<CArgMRef(MT), CArgId("Theta")>>) }
